@@ -1,6 +1,8 @@
 """C01 -- ECDSA verification and signing are exact."""
 import random
 LEVEL = "model_checking"
+GROUPS = ["ecdsa", "schnorr", "keys"]
+REPLAY_STATELESS = True
 REG = dict(category="model_checking",
     text="Ecdsa.tla is an executable TLA+ definition of ECDSA verify / RFC 6979 sign / recover on real 256-bit values. TLC (a) enumerates the order-7/13/199 "
     "test groups completely (every key, message residue, nonce, (r,s) pair incl. overflow encodings) checking completeness/soundness invariants on the spec and "
